@@ -44,6 +44,36 @@ def family_tables(prog, chk, rule):
            dec == {0: "Err", 1: "IPV4", 2: "IPV6", 3: "Err", 255: "Err"}, b.loc(), detail=repr(dec))
 
 
+def integer_form(prog, chk, b, og, tid):
+    rule = "xor-key"
+    n = {4: 0, 6: 0}
+    for bi, t in b.calls():
+        name = og.callee_name(t)
+        m = re.search(r"Ipv(4|6)Addr as std::convert::From<(u32|u128)>>::from$|Ipv(4|6)Addr::from_bits$|<impl std::convert::From<(?:u32|u128)> for std::net::Ipv(4|6)Addr>::from$", name)
+        if not m:
+            continue
+        fam = int(m.group(1) or m.group(3) or m.group(4))
+        width = 32 if fam == 4 else 128
+        val = og.operand(t["args"][0])
+
+        def leaves(x, fam=fam, width=width):
+            if x.k == "call" and re.search(r"<u%d as std::convert::From<std::net::Ipv%dAddr>>::from$|Ipv%dAddr::to_bits$|<impl std::convert::From<std::net::Ipv%dAddr> for u%d>::from$" % (width, fam, fam, fam, width), x.a[0]):
+                return ("addr", width)
+            if pm(x, tid, b):
+                return ("tid", 128)
+            return None
+        bits = BitEval(leaves).ev(val)
+        if fam == 4:
+            want = [(("n" if (COOKIE >> i) & 1 else "v"), "addr", i) for i in range(32)]
+        else:
+            want = [("x", frozenset({("addr", i), ("tid", i)}), 0) for i in range(96)] + \
+                   [(("n" if (COOKIE >> i) & 1 else "v"), "addr", 96 + i) for i in range(32)]
+        n[fam] += 1
+        chk.ob(rule, "IPv%d: address bits = (address as a big-endian integer) xor %s" % (fam, "0x2112A442" if fam == 4 else "(cookie << 96 | low 96 bits of the transaction id)"),
+               bits == want, short_span(t["span"]), detail=show_bits(bits)[:200] if bits else repr(val)[:300], how="bit provenance of the integer the address is built from")
+    chk.ob(rule, "both address families are xor-ed (integer form)", n[4] >= 1 and n[6] >= 1, b.loc(), detail=repr(n))
+
+
 def run(prog, chk, tier):
     chk.explanation = (
         "Decided: the port key is (0x2112A442 >> 16) as u16 = 0x2112 and each result bit is the port bit xor the key bit "
@@ -64,12 +94,12 @@ def run(prog, chk, tier):
         if s["k"] == "assign" and s["rv"]["k"] == "binop" and s["rv"]["op"] == "BitXor" and b.place_ty(s["pl"])["s"] == "u16":
             ports += 1
             o = og.rvalue(s["rv"])
-            ev = BitEval(lambda x: ("port", 16) if x.k == "call" and re.search(r"SocketAddrV[46]::port$", x.a[0]) else None)
+            ev = BitEval(lambda x: ("port", 16) if x.k == "call" and re.search(r"SocketAddr(V[46])?::port$", x.a[0]) else None)
             bits = ev.ev(o)
             want = [(("n" if (0x2112 >> i) & 1 else "v"), "port", i) for i in range(16)]
             chk.ob(rule, "port ^ 0x2112 (top 16 bits of the cookie)", bits == want, short_span(s["span"]),
                    detail=show_bits(bits) if bits else repr(o)[:200], how="bit i = port[i] xor bit i of 0x2112")
-    chk.floor("port-xor-sites", ports, 2)
+    chk.floor("port-xor-sites", ports, 1)
     # keys handed to to_be_bytes
     keys = {}
     for bi, t in b.calls():
@@ -77,8 +107,13 @@ def run(prog, chk, tier):
         m = re.search(r"num::<impl (u32|u128)>::to_be_bytes$", n)
         if m:
             keys[m.group(1)] = (og.operand(t["args"][0]), t)
+    if not keys:
+        # the address is xor-ed as one integer (u32 / u128 view of the address, most significant octet first) instead of
+        # octet by octet: the bits of the value the result address is built from are evaluated directly
+        integer_form(prog, chk, b, og, tid)
+    int_form = not keys
     k4 = keys.get("u32")
-    chk.ob(rule, "IPv4 key = big-endian bytes of the constant 0x2112A442", k4 is not None and const_int(k4[0]) == COOKIE, b.loc(),
+    chk.ob(rule, "IPv4 key = big-endian bytes of the constant 0x2112A442", int_form or (k4 is not None and const_int(k4[0]) == COOKIE), b.loc(),
            detail=repr(k4[0]) if k4 else "no u32::to_be_bytes")
     k6 = keys.get("u128")
     ok6 = False
@@ -86,7 +121,7 @@ def run(prog, chk, tier):
         ev = BitEval(lambda x: ("tid", 128) if pm(x, tid, b) else None)
         bits = ev.ev(k6[0])
         ok6 = bits == [("v", "tid", i) for i in range(96)] + const_bits(COOKIE, 32)
-    chk.ob(rule, "IPv6 key = big-endian bytes of cookie<<96 | transaction id (96 bits)", ok6, b.loc(),
+    chk.ob(rule, "IPv6 key = big-endian bytes of cookie<<96 | transaction id (96 bits)", ok6 or int_form, b.loc(),
            detail=repr(k6[0])[:300] if k6 else "no u128::to_be_bytes")
     # the xor of every address byte
     rule = "xor-dependence"
@@ -116,7 +151,7 @@ def run(prog, chk, tier):
                         dest.k == "field" and dest.a[1] == "1" and strip(dest.a[0]) == strip(idx.a[0])
             chk.ob(rule, "IPv%s: every result byte = key[i] ^ address[i] (same i, stored into element i)" % (fam or "?"), bool(ok),
                    short_span(s["span"]), detail=repr(o)[:300])
-    chk.floor("byte-xor-sites", sites, 2)
+    chk.floor("byte-xor-sites", sites, 0 if int_form else 2)
     # the array iterated mutably is the one that becomes the address
     n_arr = 0
     for bi, si, s in b.iter_stmts():
@@ -134,12 +169,12 @@ def run(prog, chk, tier):
                     into_addr = into_addr or any(c[0] == "call" and re.search(r"Ipv[46]Addr as std::convert::From<\[u8; \d+\]>>::from$", c[1]) for c in cons)
             chk.ob(rule, "scratch array #%d: filled through iter_mut().enumerate() and then turned into the address" % n_arr,
                    borrowed and into_addr, short_span(s["span"]))
-    chk.floor("scratch-arrays", n_arr, 2)
+    chk.floor("scratch-arrays", n_arr, 0 if int_form else 2)
     # results: SocketAddr::new(IpAddr::Vn(from(arr)), xored port)
     for bi, t in b.calls():
         if re.search(r"SocketAddr::new$", og.callee_name(t)):
             a0, a1 = og.operand(t["args"][0]), og.operand(t["args"][1])
-            ok = pm(a0, ("agg", r"IpAddr::V[46]$", [("call", r"Ipv[46]Addr as std::convert::From<\[u8; \d+\]>>::from$", None)]), b) and \
+            ok = (int_form or pm(a0, ("agg", r"IpAddr::V[46]$", [("call", r"Ipv[46]Addr as std::convert::From<\[u8; \d+\]>>::from$", None)]), b)) and \
                 strip(a1).k == "bin" and strip(a1).a[0] == "BitXor"
             chk.ob(rule, "result = SocketAddr::new(address from the xored bytes, xored port)", ok, short_span(t["span"]), detail=repr(a1)[:160])
     # wrappers
